@@ -112,17 +112,16 @@ Proof.
 Qed.
 
 (* ---------- the input's own byte(): memory_input_base< eager >::byte() = m_current.byte,
-   memory_input_base< lazy >::byte() = current() - m_begin.data (the initial byte counter is NOT added) ---------- *)
+   memory_input_base< lazy >::byte() = m_begin.byte + ( current() - m_begin.data )  (after /repo e0cf8e4; before that
+   fix the initial byte counter was not added and the two disagreed for inputs with a non-default initial byte) ---------- *)
 Definition eager_byte (c : cursor) : N := pbyte (cpos c).
-Definition lazy_byte (input : list byte) (c : cursor) : N := N.of_nat (length input - length (rest c)).
+Definition lazy_byte (p0 : pos) (input : list byte) (c : cursor) : N := pbyte p0 + N.of_nat (length input - length (rest c)).
 
-Lemma byte_partial ch input p0 c' : adv (PTr ch) (mkcur input p0) c' -> eager_byte c' = pbyte p0 + lazy_byte input c'.
+Lemma byte_lazy_eq_eager ch input p0 c' : adv (PTr ch) (mkcur input p0) c' -> eager_byte c' = lazy_byte p0 input c'.
 Proof.
   intros [pre [H1 H2]]. simpl in *. unfold eager_byte, lazy_byte. rewrite H2, H1, app_length.
   replace (length pre + length (rest c') - length (rest c'))%nat with (length pre) by lia. apply track_spec.
 Qed.
-Lemma byte_refuted : exists input p0, eager_byte (mkcur input p0) <> lazy_byte input (mkcur input p0).
-Proof. exists [97], (mkpos 7 3 5). vm_compute. discriminate. Qed.
 
 (* ---------- witnesses of the deviations of the code that exists ---------- *)
 Definition cfg0 (e : eolp) : cfg :=
@@ -145,10 +144,26 @@ Lemma refuted_mask_uint8 :
                  head_ok EolLf (HOne true (PkMaskUint8 240) [0%Z]) = false.
 Proof. eexists. eexists. vm_compute. repeat split. Qed.
 
-(* (e) rematch under lazy tracking: rematch.hpp constructs the inner input from m.inputerator(), which for a lazy input
-   is a bare const char*, so the inner m_begin is { data, 0, 1, 1 }: a position at offset k of the rematched span is
-   computed from pos0 over the span instead of from the initial counters over everything before it *)
-Lemma refuted_lazy_rematch :
+(* (e) rematch under lazy tracking (after /repo 1d941ee): the inner input of a lazy input keeps the OUTER begin and initial
+   counters and is positioned at the start of the rematched span, so a position at offset k of the span is computed by
+   lazy position() from the initial counters over everything before it - the same value the outer input reports.
+   (Before the fix the inner m_begin was { span begin, 0, 1, 1 }: witness kept below as the regression to avoid.) *)
+Definition rematch_inner_lazy_position (ch : N) (p0 : pos) (pre span : list byte) (k : nat) : option pos :=
+  lazy_position ch p0 (pre ++ span) (length pre + k).
+Lemma lazy_rematch_absolute ch p0 pre span post k :
+  (k <= length span)%nat ->
+  rematch_inner_lazy_position ch p0 pre span k = lazy_position ch p0 (pre ++ span ++ post) (length pre + k).
+Proof.
+  intros Hk. unfold rematch_inner_lazy_position.
+  rewrite <- (firstn_skipn k span) at 1 2.
+  assert (L : length (firstn k span) = k) by (apply firstn_length_le; exact Hk).
+  replace (pre ++ firstn k span ++ skipn k span) with ((pre ++ firstn k span) ++ skipn k span) by (rewrite app_assoc; reflexivity).
+  replace (pre ++ (firstn k span ++ skipn k span) ++ post) with ((pre ++ firstn k span) ++ (skipn k span ++ post))
+    by (rewrite <- !app_assoc; reflexivity).
+  replace (length pre + k)%nat with (length (pre ++ firstn k span)) by (rewrite app_length, L; reflexivity).
+  rewrite !lazy_position_track. reflexivity.
+Qed.
+Lemma old_lazy_rematch_was_relative :
   exists ch p0 pre span k,
     lazy_position ch pos0 span k <> lazy_position ch p0 (pre ++ span) (length pre + k).
 Proof. exists 10, pos0, [10], [97], 0%nat. vm_compute. discriminate. Qed.
